@@ -56,7 +56,7 @@ theorem credit_step (ord : List Group → List Group) (vals : List Validator) (s
       simp [creditStep, hne, sameOn]
 
 /-- two validators of power 50, both whitelisted -/
-def exVals : List Validator := [⟨0, 50, true⟩, ⟨1, 50, true⟩]
+def exVals : List Validator := [⟨0, 50, true, true⟩, ⟨1, 50, true, true⟩]
 def exState : BState := { BState.init with oracle := ⟨[0, 1], [], none⟩ }
 def exClaim (v recv : Nat) : Msg :=
   .claim ⟨v, 1, 5, "0x1111111111111111111111111111111111111111", recv, 1000, "usdc", "0x2222222222222222222222222222222222222222", 2, 0⟩
